@@ -18,16 +18,16 @@ EXTENDS Integers, Sequences, FiniteSets, TLC, Json, IOUtils
 
 Trace == ndJsonDeserialize(IOEnv.TRACE)
 
-VARIABLES l, tid, kind, cfg, metas, nreq, poolStart, began, running, fc, moves, conn, ended, cutSeen, cancelled, bad
-mvars == <<l, tid, kind, cfg, metas, nreq, poolStart, began, running, fc, moves, conn, ended, cutSeen, cancelled, bad>>
+VARIABLES l, tid, kind, cfg, metas, nreq, poolStart, began, running, fc, moves, conn, ended, cutSeen, cancelled, doomed, bad
+mvars == <<l, tid, kind, cfg, metas, nreq, poolStart, began, running, fc, moves, conn, ended, cutSeen, cancelled, doomed, bad>>
 
 NoBad == [route |-> {}, version |-> {}, follow |-> {}, realtime |-> {}, refresh |-> {}, filter |-> {}, own |-> {},
-          reuse |-> {}, pending |-> {}, cut |-> {}, nexterr |-> {}, hang |-> {}, late |-> {}, ctxerr |-> {}]
-NoCfg == [vtab |-> << >>, crange |-> << >>, ttlMs |-> 0, ops |-> << >>]
+          reuse |-> {}, pending |-> {}, cut |-> {}, nexterr |-> {}, hang |-> {}, late |-> {}, ctxerr |-> {}, leak |-> {}]
+NoCfg == [vtab |-> << >>, crange |-> << >>, ttlMs |-> 0, ops |-> << >>, boot |-> << >>]
 
 Init == /\ l = 1 /\ tid = "" /\ kind = "" /\ cfg = NoCfg /\ metas = << >> /\ nreq = 0 /\ poolStart = 0
         /\ began = << >> /\ running = {} /\ fc = << >> /\ moves = << >> /\ conn = << >> /\ ended = << >>
-        /\ cutSeen = {} /\ cancelled = << >> /\ bad = NoBad
+        /\ cutSeen = {} /\ cancelled = << >> /\ doomed = {} /\ bad = NoBad
 
 Max(a, b) == IF a >= b THEN a ELSE b
 Min(a, b) == IF a <= b THEN a ELSE b
@@ -128,7 +128,7 @@ ReqBad(e) ==
                  !.follow = IF followBad THEN @ \cup {Key(e)} ELSE @,
                  !.realtime = IF realtimeBad THEN @ \cup {Key(e)} ELSE @]
 
-NoC == [broker |-> 0, pend |-> 0, failed |-> FALSE]
+NoC == [broker |-> 0, pend |-> 0, failed |-> FALSE, ep |-> "", closed |-> FALSE]
 C(c) == IF c \in DOMAIN conn THEN conn[c] ELSE NoC
 
 EndBad(e) ==
@@ -159,32 +159,32 @@ EndBad(e) ==
                  !.late = IF lateBad THEN @ \cup {k} ELSE @,
                  !.ctxerr = IF ctxBad THEN @ \cup {k} ELSE @]
 
-Same == UNCHANGED <<tid, kind, cfg, metas, nreq, poolStart, began, running, fc, moves, conn, ended, cutSeen, cancelled, bad>>
+Same == UNCHANGED <<tid, kind, cfg, metas, nreq, poolStart, began, running, fc, moves, conn, ended, cutSeen, cancelled, doomed, bad>>
 
 Upd(e) ==
   CASE e.ev = "cfg" ->
          /\ tid' = e.id /\ kind' = e.kind
-         /\ cfg' = [vtab |-> e.vtab, crange |-> e.crange, ttlMs |-> e.ttlMs, ops |-> e.ops]
+         /\ cfg' = [vtab |-> e.vtab, crange |-> e.crange, ttlMs |-> e.ttlMs, ops |-> e.ops, boot |-> e.boot]
          /\ metas' = << >> /\ nreq' = 0 /\ poolStart' = 0 /\ began' = << >> /\ running' = {} /\ fc' = << >>
          /\ moves' = << >> /\ conn' = << >> /\ ended' = << >> /\ cutSeen' = {} /\ cancelled' = << >>
-         /\ bad' = NoBad
+         /\ doomed' = {} /\ bad' = NoBad
     [] e.ev = "opbegin" ->
          /\ began' = (e.o :> [pos |-> l, nreq |-> nreq, ts |-> e.ts]) @@ began
          /\ running' = running \cup {e.o}
-         /\ UNCHANGED <<tid, kind, cfg, metas, nreq, poolStart, fc, moves, conn, ended, cutSeen, cancelled, bad>>
+         /\ UNCHANGED <<tid, kind, cfg, metas, nreq, poolStart, fc, moves, conn, ended, cutSeen, cancelled, bad, doomed>>
     [] e.ev = "dial" ->
-         /\ conn' = IF e.ok THEN (e.conn :> [NoC EXCEPT !.broker = e.broker]) @@ conn ELSE conn
-         /\ UNCHANGED <<tid, kind, cfg, metas, nreq, poolStart, began, running, fc, moves, ended, cutSeen, cancelled, bad>>
+         /\ conn' = IF e.ok THEN (e.conn :> [NoC EXCEPT !.broker = e.broker, !.ep = e.ep]) @@ conn ELSE conn
+         /\ UNCHANGED <<tid, kind, cfg, metas, nreq, poolStart, began, running, fc, moves, ended, cutSeen, cancelled, bad, doomed>>
     [] e.ev = "cwrite" ->
          \* C06t: a request is written on a connection only when every earlier exchange on it completed
          /\ bad' = [bad EXCEPT !.reuse = IF C(e.conn).failed THEN @ \cup {[tid |-> tid, conn |-> e.conn, api |-> e.api, corr |-> e.corr]} ELSE @,
                                !.pending = IF C(e.conn).pend > 0 THEN @ \cup {[tid |-> tid, conn |-> e.conn, api |-> e.api, corr |-> e.corr]} ELSE @]
          /\ conn' = (e.conn :> [C(e.conn) EXCEPT !.pend = @ + 1]) @@ conn
-         /\ UNCHANGED <<tid, kind, cfg, metas, nreq, poolStart, began, running, fc, moves, ended, cutSeen, cancelled>>
+         /\ UNCHANGED <<tid, kind, cfg, metas, nreq, poolStart, began, running, fc, moves, ended, cutSeen, cancelled, doomed>>
     [] e.ev = "req" ->
          /\ nreq' = IF e.api = "Metadata" THEN e.n ELSE nreq
          /\ bad' = ReqBad(e)
-         /\ UNCHANGED <<tid, kind, cfg, metas, poolStart, began, running, fc, moves, conn, ended, cutSeen, cancelled>>
+         /\ UNCHANGED <<tid, kind, cfg, metas, poolStart, began, running, fc, moves, conn, ended, cutSeen, cancelled, doomed>>
     [] e.ev = "reply" ->
          LET failed == e.closed \/ e.cut >= 0 IN
          /\ metas' = IF e.api = "Metadata"
@@ -197,31 +197,46 @@ Upd(e) ==
                        ELSE IF e.o > 0 THEN cutSeen \cup {e.o}
                        ELSE IF e.api = "ApiVersions" /\ Cardinality(running) = 1 THEN cutSeen \cup running
                        ELSE cutSeen
-         /\ UNCHANGED <<tid, kind, cfg, nreq, poolStart, began, running, moves, ended, cancelled, bad>>
+         /\ UNCHANGED <<tid, kind, cfg, nreq, poolStart, began, running, moves, ended, cancelled, bad, doomed>>
     [] e.ev = "peerclosed" ->
          \* the broker end went away while an exchange was in progress: that exchange failed
          /\ conn' = (e.conn :> [C(e.conn) EXCEPT !.failed = @ \/ (C(e.conn).pend > 0)]) @@ conn
-         /\ UNCHANGED <<tid, kind, cfg, metas, nreq, poolStart, began, running, fc, moves, ended, cutSeen, cancelled, bad>>
+         /\ UNCHANGED <<tid, kind, cfg, metas, nreq, poolStart, began, running, fc, moves, ended, cutSeen, cancelled, bad, doomed>>
     [] e.ev = "move" ->
          /\ moves' = IF e.kind = "leader" THEN Append(moves, [t |-> e.t, p |-> e.p, to |-> e.to, reqn |-> e.reqn, ts |-> e.ts, pos |-> l])
                      ELSE IF e.kind = "brokerremove"
                        THEN moves \o [ i \in DOMAIN e.leaders |-> [t |-> e.leaders[i].t, p |-> e.leaders[i].p, to |-> e.h, reqn |-> e.reqn, ts |-> e.ts, pos |-> l] ]
                      ELSE moves
+         \* a broker (not a bootstrap one: its connections are all of its own group) re-registers with another address:
+         \* the connection group bound to the old address is closed by the refresh that reports it
+         /\ doomed' = IF e.kind = "readdress" /\ e.addrChanged /\ e.b \notin Range(cfg.boot)
+                         THEN doomed \cup { c \in DOMAIN conn : conn[c].broker = e.b /\ conn[c].ep # e.ep }
+                         ELSE doomed
          /\ UNCHANGED <<tid, kind, cfg, metas, nreq, poolStart, began, running, fc, conn, ended, cutSeen, cancelled, bad>>
     [] e.ev = "refreshed" ->
          /\ bad' = [bad EXCEPT !.refresh = IF ~e.ok THEN @ \cup {[tid |-> tid, sinceMoveMs |-> e.sinceMoveMs, boundMs |-> e.boundMs]} ELSE @]
-         /\ UNCHANGED <<tid, kind, cfg, metas, nreq, poolStart, began, running, fc, moves, conn, ended, cutSeen, cancelled>>
+         /\ UNCHANGED <<tid, kind, cfg, metas, nreq, poolStart, began, running, fc, moves, conn, ended, cutSeen, cancelled, doomed>>
     [] e.ev = "closeidle" ->
          /\ poolStart' = Len(metas)
+         \* the pool is dropped: every connection it opened is to be closed, at the latest when its exchange is over
+         /\ doomed' = doomed \cup DOMAIN conn
          /\ UNCHANGED <<tid, kind, cfg, metas, nreq, began, running, fc, moves, conn, ended, cutSeen, cancelled, bad>>
     [] e.ev = "cancel" ->
          /\ cancelled' = (e.o :> l) @@ cancelled
-         /\ UNCHANGED <<tid, kind, cfg, metas, nreq, poolStart, began, running, fc, moves, conn, ended, cutSeen, bad>>
+         /\ UNCHANGED <<tid, kind, cfg, metas, nreq, poolStart, began, running, fc, moves, conn, ended, cutSeen, bad, doomed>>
     [] e.ev = "opend" ->
          /\ ended' = (e.o :> [result |-> e.result, code |-> e.code, own |-> e.own]) @@ ended
          /\ running' = running \ {e.o}
          /\ bad' = EndBad(e)
-         /\ UNCHANGED <<tid, kind, cfg, metas, nreq, poolStart, began, fc, moves, conn, cutSeen, cancelled>>
+         /\ UNCHANGED <<tid, kind, cfg, metas, nreq, poolStart, began, fc, moves, conn, cutSeen, cancelled, doomed>>
+    [] e.ev = "cclose" ->
+         /\ conn' = IF e.conn \in DOMAIN conn THEN (e.conn :> [conn[e.conn] EXCEPT !.closed = TRUE]) @@ conn ELSE conn
+         /\ UNCHANGED <<tid, kind, cfg, metas, nreq, poolStart, began, running, fc, moves, ended, cutSeen, cancelled, doomed, bad>>
+    [] e.ev = "census" ->
+         \* taken after every call returned, every held answer was released and things had time to settle
+         /\ bad' = [bad EXCEPT !.leak = @ \cup { [tid |-> tid, conn |-> c, kind |-> "connection-left-open", broker |-> conn[c].broker, ep |-> conn[c].ep] :
+                                                c \in { x \in doomed : ~conn[x].closed } }]
+         /\ UNCHANGED <<tid, kind, cfg, metas, nreq, poolStart, began, running, fc, moves, conn, ended, cutSeen, cancelled, doomed>>
     [] e.ev = "end" ->
          \* one line per journal with everything that was found in it (read by the engine when an invariant failed,
          \* so that every violation of every journal is reported, not only the first one TLC stops at)
@@ -252,6 +267,8 @@ C17t_NoPanicNoHang == bad.hang = {}
 \* C09 (Transport part)
 C09t_CancelPrompt == bad.late = {} /\ bad.hang = {}
 C09t_ContextError == bad.ctxerr = {}
+\* a connection of a pool / connection group that was closed is closed once its in-flight exchange is over
+C09t_ClosedPoolConnsClose == bad.leak = {}
 
 TraceAccepted == TLCGet("stats").diameter = Len(Trace) + 1
 =============================================================================
